@@ -32,6 +32,11 @@ def regionEq (a b : List (Aff Q)) : Bool :=
   a.length == b.length && (a.zip b).all (fun (x, y) => cmpAff x y == .same)
 
 def judgeC09 : P Verdict := do
+  -- `rerooted`: the arena holds one more node than the tree (the disconnected draft root that a second `add_root`
+  -- left behind — the documented exception to reachability): `len()`, and with it the lower size hints, count it
+  let rerooted ← (do if (← peek?) == some "rerooted" then let _ ← tok; pure true else pure false)
+  if rerooted then tag "rerooted"
+  let orph : Nat := if rerooted then 1 else 0
   let td ← pTree
   let skl ← pNatList
   let pre ← pNat
@@ -68,7 +73,7 @@ def judgeC09 : P Verdict := do
   expect ";"
   let icnt ← pNat
   let lb0 ← pNat; let ub0 ← pNat
-  if !(lb0 ≤ icnt && icnt ≤ ub0) then return .propfail s!"[C13] polyhedra_iter size_hint ({lb0},{ub0}) does not bracket {icnt}"
+  if !(lb0 ≤ icnt + orph && icnt ≤ ub0) then return .propfail s!"[C13] polyhedra_iter size_hint ({lb0},{ub0}) does not bracket {icnt}"
   let refAll := regionsT t 0 0 []
   if icnt != refAll.length then return .propfail s!"[C09] polyhedra_iter(): {icnt} items, {refAll.length} nodes"
   let mut k := 0
@@ -77,7 +82,7 @@ def judgeC09 : P Verdict := do
     if d != it.depth || i != it.idx || r != it.nrem || np != path.length then
       return .propfail s!"[C09] polyhedra_iter(): item {k} is ({d},{i},{r},{np} conditions), expected ({it.depth},{it.idx},{it.nrem},{path.length})"
     let remaining := icnt - (k + 1)
-    if !(lb ≤ remaining && remaining ≤ ub) then
+    if !(lb ≤ remaining + orph && remaining ≤ ub) then
       return .propfail s!"[C13] polyhedra_iter size_hint ({lb},{ub}) after item {k} does not bracket {remaining}"
     k := k + 1
   -- find_terminal
